@@ -303,50 +303,6 @@ fn chunker_next_empty_stream() {
 	std::mem::forget(c);
 }
 
-// ---- yaml::input_matches through the real Encoding::detect / Encoder / Chunker, libyaml scripted (C09 / C10) --------
-// "collection documents only", "a candidate that meets a syntax error or runs out of input is simply skipped".
-fn yaml_trial(events: &[(u32, u64, u64)]) -> io::Result<bool> {
-	let data = ascii_stream::<4>();
-	script(events);
-	unsafe { super::parser::verif_kani::EV_DELIVERED = 0; }
-	crate::yaml::input_matches(crate::input::Ref::Slice(&data))
-}
-#[kani::proof]
-#[kani::unwind(9)]
-#[kani::stub(Parser::new, fake_new)]
-#[kani::stub(Parser::next_event, scripted_next_event)]
-fn yaml_input_matches_collection_first_document() {
-	let seq: bool = kani::any();
-	let r = yaml_trial(&[(STREAM_START, 0, 0), (DOC_START, 0, 0), (if seq { SEQ_START } else { MAP_START }, 0, 1), (DOC_END, 2, 2), (STREAM_END, 4, 4)]);
-	assert!(matches!(r, Ok(true)), "a stream whose first document is a collection is YAML");
-	std::mem::forget(r);
-}
-#[kani::proof]
-#[kani::unwind(9)]
-#[kani::stub(Parser::new, fake_new)]
-#[kani::stub(Parser::next_event, scripted_next_event)]
-fn yaml_input_matches_scalar_first_document() {
-	let r = yaml_trial(&[(STREAM_START, 0, 0), (DOC_START, 0, 0), (SCALAR, 0, 2), (DOC_END, 2, 2), (STREAM_END, 4, 4)]);
-	assert!(matches!(r, Ok(false)), "a scalar first document must not be detected as YAML");
-	std::mem::forget(r);
-}
-#[kani::proof]
-#[kani::unwind(9)]
-#[kani::stub(Parser::new, fake_new)]
-#[kani::stub(Parser::next_event, scripted_next_event)]
-fn yaml_input_matches_syntax_error_is_skipped() {
-	// the parser fails (at once, or after a first collection document that is still pending): the candidate is skipped
-	let late: bool = kani::any();
-	let r = if late { yaml_trial(&[(DOC_START, 0, 0), (MAP_START, 0, 1), (DOC_END, 2, 2), (0, 0, 0)]) } else { yaml_trial(&[(0, 0, 0)]) };
-	assert!(matches!(r, Ok(false)), "a YAML syntax error must skip the candidate, not abort detection and not match");
-	std::mem::forget(r);
-}
-#[kani::proof]
-#[kani::unwind(9)]
-#[kani::stub(Parser::new, fake_new)]
-#[kani::stub(Parser::next_event, scripted_next_event)]
-fn yaml_input_matches_empty_stream() {
-	let r = yaml_trial(&[(STREAM_START, 0, 0), (STREAM_END, 0, 0)]);
-	assert!(matches!(r, Ok(false)), "a stream without documents is not detected as YAML");
-	std::mem::forget(r);
-}
+// (yaml::input_matches through the real detector / Encoder / Chunker with the scripted libyaml was tried here in four
+// concrete scenarios and dropped: the function drops io::Error values, whose drop glue (dyn Error recursion) makes
+// CBMC's symbolic execution explode even for concrete outcomes.  Chunker::next's result contract is proved by U-CHK-V.)
